@@ -68,7 +68,7 @@ CVacuous(name, e) == PrintT(<<"VACUOUS", name, l, e.case, e.g>>)
 
 \* ---- the probe schedule (C03: every live peer once per pass while membership is stable, at least once
 \* in any two passes otherwise, never the node itself, never a dead peer) --------------------------------
-NoPass == [picks |-> << >>, stable |-> TRUE, elig |-> {}, full |-> FALSE, missed |-> << >>, flap |-> {}, pickAt |-> -1]
+NoPass == [picks |-> << >>, stable |-> TRUE, elig |-> {}, full |-> FALSE, missed |-> << >>, flap |-> {}, pickAt |-> -1, pickOf |-> "", pickInfo |-> ""]
 PassOf(n) == IF n \in DOMAIN pass THEN pass[n] ELSE NoPass
 Count(f, x) == IF x \in DOMAIN f THEN f[x] ELSE 0
 Peers(e) == {m.name : m \in e.members} \ {e.n}
@@ -99,13 +99,13 @@ PassUpdate(e) ==
     [] e.ev = "Init" -> pass' = put(NoPass)
     [] e.ev = "ProbePick" ->
          pass' = put([p EXCEPT !.picks = [x \in DOMAIN p.picks \cup {e.node} |-> Count(p.picks, x) + (IF x = e.node THEN 1 ELSE 0)],
-                               !.pickAt = e.t])
+                               !.pickAt = e.t, !.pickOf = e.node, !.pickInfo = e.info])
     [] e.ev = "Health" /\ p.pickAt >= 0 -> pass' = put([p EXCEPT !.pickAt = -1])
     [] e.ev = "Reap" ->
          LET el == Peers(e) IN
          \* a pass without a probe counts against a peer only if the observer listed it during the WHOLE pass
          \* (a peer that was dead when the cursor came by and alive again afterwards was rightly skipped)
-         pass' = put([picks |-> << >>, stable |-> TRUE, elig |-> el, full |-> TRUE, flap |-> {}, pickAt |-> p.pickAt,
+         pass' = put([picks |-> << >>, stable |-> TRUE, elig |-> el, full |-> TRUE, flap |-> {}, pickAt |-> p.pickAt, pickOf |-> p.pickOf, pickInfo |-> p.pickInfo,
                       missed |-> [x \in el |-> IF p.full /\ x \in p.elig /\ x \notin p.flap /\ Count(p.picks, x) = 0
                                                 THEN Count(p.missed, x) + 1 ELSE 0]])
     [] e.ev = "NodeOp" /\ (IsAbsent(e.pre) # IsAbsent(e.post) \/ Listed(e.pre) # Listed(e.post)) ->
@@ -129,8 +129,11 @@ C04Judge(e) ==
                ~(e.ev \in {"NodeOp", "Reap"} /\ \E i \in DOMAIN e.events :
                     e.events[i].kind = "leave" /\ e.events[i].name \notin leavers))
     \* (an INCREASE of the score: a score left over from an excused increase may take several successful
-    \* probes to come down again)
-    /\ CReport("C04_Healthy", e, ~(e.ev = "Health" /\ e.incPost > e.incPre /\ ~Excused(e.n)))
+    \* probes to come down again;
+    \* and a probe of a departed member that began while the prober still held it alive or suspect ends as a failed
+    \* probe even if the news of the departure arrives while it is under way)
+    /\ CReport("C04_Healthy", e, ~(e.ev = "Health" /\ e.incPost > e.incPre /\ ~Excused(e.n)
+                                   /\ ~(PassOf(e.n).pickOf \in departed /\ PassOf(e.n).pickInfo \in {"alive", "suspect"})))
 
 \* C03 / C05 at the end of the run
 EndJudge(e) ==
